@@ -1,4 +1,5 @@
 import Driver.C04
+import Driver.C03
 import Driver.C17
 import Driver.C20
 import Driver.C18
@@ -27,6 +28,7 @@ partial def loop (h : IO.FS.Stream) (out : IO.FS.Stream) (f : String → String)
   loop h out f
 
 def modes : List (String × (String → String)) := [
+  ("c03", C03.handle),
   ("c17pipe", C17.handlePipe),
   ("c17drehe", C17.handleDrehe),
   ("c17opt", C17.handleOpt),
